@@ -505,7 +505,7 @@ def window_view(sv):
     return None
 
 
-def check_framing(ctx, sizes):
+def check_framing(ctx, sizes, rule='L4'):
     sr = ctx.func('netlink.NetlinkProtocol.send_recv')
     S = ctx.sval(sr)
     ps = sr.call_params()
@@ -523,8 +523,8 @@ def check_framing(ctx, sizes):
         ln = strip_ids(kw.get('length', NONE))
         ok = ln[0] == 'add' and set(ln[1]) == {want_len, blen} and kw.get('type') == ('param', ps[0]) and kw.get('flags') == ('param', ps[1]) \
             and 'seq' in kw and tq.match(S.expr('os.getpid()'), kw.get('pid', NONE)) is not None
-    ctx.check(ok, 'L4', 'nlmsghdr: length = header size + length of everything that follows it on the wire, type and flags as requested',
-              key=('L4', 'header'), site=site, detail={'header': tq.text(hdr, 500) if hdr is not None else None})
+    ctx.check(ok, rule, 'nlmsghdr: length = header size + length of everything that follows it on the wire, type and flags as requested',
+              key=(rule, 'header'), site=site, detail={'header': tq.text(hdr, 500) if hdr is not None else None})
     ok = len(body) == 2 and (tq.match(S.expr('bytearray(%s)' % ps[2]), body[0]) is not None or
                              tq.match(S.expr('bytes(%s)' % ps[2]), body[0]) is not None)
     if ok:
@@ -541,8 +541,8 @@ def check_framing(ctx, sizes):
         if ok:
             fa = tq.args(tq.args(it[3])['#0'])
             ok = strip_ids(fa.get('code', NONE))[0] == 'key' and strip_ids(fa.get('data', NONE))[0] == 'value'
-    ctx.check(ok, 'L4', 'the request is header | payload structure | one attribute per entry of `attributes` (type = key, data = value)',
-              key=('L4', 'order'), site=site, detail={'sent': tq.text(wire, 600) if wire is not None else None})
+    ctx.check(ok, rule, 'the request is header | payload structure | one attribute per entry of `attributes` (type = key, data = value)',
+              key=(rule, 'order'), site=site, detail={'sent': tq.text(wire, 600) if wire is not None else None})
     af = ctx.func('netlink.NetlinkProtocol._attribute_factory')
     A = ctx.sval(af)
     r = A.ret()
@@ -557,13 +557,13 @@ def check_framing(ctx, sizes):
         fields = dict(lc[2]).get('_fields_')
         names = [tq.text(f[1][0]) + ':' + tq.text(f[1][1]) for f in fields[1]] if fields is not None and fields[0] == 'tuple' else []
         ok = names == ["'len':ctypes.c_uint16", "'code':ctypes.c_uint16", "'data':builtins.type(%s)" % aps[1]]
-    ctx.check(ok, 'L4', 'attribute = nla_len (size of header + data), nla_type, data - both header fields 16-bit host order',
-              key=('L4', 'attribute'), site=ctx.site(af, af.node), detail={'returned': tq.text(r, 500)})
+    ctx.check(ok, rule, 'attribute = nla_len (size of header + data), nla_type, data - both header fields 16-bit host order',
+              key=(rule, 'attribute'), site=ctx.site(af, af.node), detail={'returned': tq.text(r, 500)})
     # alignment: every payload struct that is followed by attributes, and every attribute payload, is a multiple of 4
     for q in ('xfrm.XfrmUserSaInfo', 'xfrm.XfrmUserPolicyInfo', 'xfrm.XfrmAlgo', 'xfrm.XfrmUserTmpl'):
-        ctx.check(sizes[q] % 4 == 0, 'L4', '%s is %d octets, a multiple of 4: no NLMSG_ALIGN / NLA_ALIGN padding is needed after it' % (
-            q.split('.')[-1], sizes[q]), key=('L4', 'align', q))
-    ctx.check(sizes['netlink.NetlinkHeader'] == 16, 'L4', 'NLMSG_HDRLEN is 16', key=('L4', 'hdrlen'))
+        ctx.check(sizes[q] % 4 == 0, rule, '%s is %d octets, a multiple of 4: no NLMSG_ALIGN / NLA_ALIGN padding is needed after it' % (
+            q.split('.')[-1], sizes[q]), key=(rule, 'align', q))
+    ctx.check(sizes['netlink.NetlinkHeader'] == 16, rule, 'NLMSG_HDRLEN is 16', key=(rule, 'hdrlen'))
     # reply handling: the condition under which NetlinkError is raised, evaluated
     rs = [(pc, t) for pc, t, _ in S.raises if tq.is_call(t, 'new netlink.NetlinkError')]
     ok = len(rs) == 1
@@ -591,8 +591,8 @@ def check_framing(ctx, sizes):
                 except (tq.NoValue, Exception):
                     v = None
                 ok = ok and v is want
-    ctx.check(ok, 'L4', 'a reply raises NetlinkError exactly when it is NLMSG_ERROR with a non-zero code; an ack (code 0) is success',
-              key=('L4', 'reply-error'), site=site)
+    ctx.check(ok, rule, 'a reply raises NetlinkError exactly when it is NLMSG_ERROR with a non-zero code; an ack (code 0) is success',
+              key=(rule, 'reply-error'), site=site)
     # the reply buffer advances by nlmsg_len of the message just parsed
     wv = window_view(S)
     ok = wv is not None
@@ -601,13 +601,13 @@ def check_framing(ctx, sizes):
         # ... by the nlmsg_len of the message parsed at the front of what is left
         ok = adv[0] == 'attr' and adv[2] == 'length' and adv[1][0] == 'index' and adv[1][2] == const(0) \
             and tq.is_call(adv[1][1], 'netlink.NetlinkProtocol.parse_message') and list(tq.args(adv[1][1]).values()) == [WIN]
-    ctx.check(ok, 'L4', 'the reply buffer is consumed message by message using nlmsg_len', key=('L4', 'reply-advance'), site=site)
+    ctx.check(ok, rule, 'the reply buffer is consumed message by message using nlmsg_len', key=(rule, 'reply-advance'), site=site)
     ds = ctx.func('xfrm.Xfrm.delete_sa')
     D = ctx.sval(ds)
     sends = D.calls_to(qual='netlink.NetlinkProtocol.send_recv')
     handled = [c for c in D.calls if any(a[0][0] == 'caught' and 'NetlinkError' in tq.text(a[0]) for a in c.pc)]
-    ctx.check(len(sends) == 1 and bool(handled) and not D.raises, 'L4',
-              'delete_sa tolerates a kernel refusal (already gone) and reports it', key=('L4', 'delete-tolerant'), site=ctx.site(ds, ds.node))
+    ctx.check(len(sends) == 1 and bool(handled) and not D.raises, rule,
+              'delete_sa tolerates a kernel refusal (already gone) and reports it', key=(rule, 'delete-tolerant'), site=ctx.site(ds, ds.node))
 
 
 def subterms_of(sv):
